@@ -80,13 +80,20 @@ type vfC02LazyRun struct {
 	proto  protocol.ID
 	accept chan network.Stream
 	label  string
-	mu     sync.Mutex
-	log    []any
+	// largest unit (real bytes per model unit) the stack's flow control can hold unread for every stream of the
+	// connection at once; 0 = any (see vfC02Stacks)
+	maxUnit   int
+	abandoned atomic.Bool
+	mu        sync.Mutex
+	log       []any
 }
 
 func (r *vfC02LazyRun) note(m map[string]any) { r.mu.Lock(); r.log = append(r.log, m); r.mu.Unlock() }
 
 func (r *vfC02LazyRun) mismatch(step int, class, what string, exp, got any) {
+	if r.abandoned.Load() && class != "lazyms-stall" {
+		return // the watchdog tore the streams down: what the walk sees from then on is the harness's doing
+	}
 	r.mu.Lock()
 	pre := append([]any(nil), r.log...)
 	r.mu.Unlock()
@@ -129,6 +136,7 @@ func (r *vfC02LazyRun) run(watchdog time.Duration) (stalled bool) {
 	case <-done:
 	case <-time.After(watchdog):
 		stalled = true
+		r.abandoned.Store(true)
 	}
 	cmu.Lock()
 	for _, f := range closers {
@@ -141,8 +149,8 @@ func (r *vfC02LazyRun) run(watchdog time.Duration) (stalled bool) {
 
 var (
 	// 36 = length of the client's handshake for the harness protocol id: sizes around the 4096-byte write buffer
-	vfC02LazyCUnit = []int{1, 2, 255, 4059, 4060, 4061, 4096, 65536}
-	vfC02LazySUnit = []int{1, 2, 255, 256, 257, 4096, 65536}
+	vfC02LazyCUnit = []int{1, 2, 255, 4059, 4060, 4061, 4096, 16384, 32768, 65536}
+	vfC02LazySUnit = []int{1, 2, 255, 256, 257, 4096, 16384, 32768, 65536}
 )
 
 func (r *vfC02LazyRun) body(addCloser func(func())) {
@@ -175,10 +183,19 @@ func (r *vfC02LazyRun) body(addCloser func(func())) {
 		}
 		return ss
 	}
+	units := func(all []int) []int {
+		var out []int
+		for _, u := range all {
+			if r.maxUnit == 0 || u <= r.maxUnit {
+				out = append(out, u)
+			}
+		}
+		return out
+	}
 	c2s := &vfC02Dir{name: "client->server", led: vfc02.NewLedger("lazyms", vfc02.Content(0), false),
-		unit: r.pick.Pick(vfC02LazyCUnit, r.w.Walk, 1), jobs: make(chan vfC02Job, 16)}
+		unit: r.pick.Pick(units(vfC02LazyCUnit), r.w.Walk, 1), jobs: make(chan vfC02Job, 16)}
 	s2c := &vfC02Dir{name: "server->client", led: vfc02.NewLedger("lazyms", vfc02.Content(1), false),
-		unit: r.pick.Pick(vfC02LazySUnit, r.w.Walk, 2), jobs: make(chan vfC02Job, 16)}
+		unit: r.pick.Pick(units(vfC02LazySUnit), r.w.Walk, 2), jobs: make(chan vfC02Job, 16)}
 	var wg sync.WaitGroup
 	writer := func(d *vfC02Dir, get func() network.Stream) {
 		defer wg.Done()
@@ -475,7 +492,7 @@ func TestVerifC02LazyMS(t *testing.T) {
 	for _, c := range h1.Network().ConnsToPeer(h2.ID()) {
 		<-h1.(*basichost.BasicHost).IDService().IdentifyWait(c)
 	}
-	if err := vfC02LazyReplay(res, files, h1, h2, "mocknet", 1); err != nil {
+	if err := vfC02LazyReplay(res, files, h1, h2, "mocknet", 1, vfh.EnvInt("VERIF_C02_LAZY_PAR", 8), 0); err != nil {
 		t.Fatal(err)
 	}
 }
@@ -483,9 +500,8 @@ func TestVerifC02LazyMS(t *testing.T) {
 var vfC02Stalled atomic.Bool
 
 // vfC02LazyReplay runs the walks (one in `share`) on streams from h1 to h2.
-func vfC02LazyReplay(res *vfh.Result, files []string, h1, h2 host.Host, label string, share int) error {
+func vfC02LazyReplay(res *vfh.Result, files []string, h1, h2 host.Host, label string, share, par, maxUnit int) error {
 	rounds := vfh.EnvInt("VERIF_C02_ROUNDS", 1)
-	par := vfh.EnvInt("VERIF_C02_LAZY_PAR", 8)
 	type job struct {
 		f  string
 		w  vfh.Walk
@@ -506,7 +522,7 @@ func vfC02LazyReplay(res *vfh.Result, files []string, h1, h2 host.Host, label st
 			defer wg.Done()
 			for j := range ch {
 				mk := func() *vfC02LazyRun {
-					return &vfC02LazyRun{res: res, file: j.f, w: j.w, h1: h1, h2: h2, proto: proto, accept: accept, label: label,
+					return &vfC02LazyRun{res: res, file: j.f, w: j.w, h1: h1, h2: h2, proto: proto, accept: accept, label: label, maxUnit: maxUnit,
 						pick: vfc02.Picker{Seed: uint64(vfh.Seed()), Round: j.rd}}
 				}
 				if vfC02Stalled.Load() {
@@ -544,33 +560,42 @@ func vfC02LazyReplay(res *vfh.Result, files []string, h1, h2 host.Host, label st
 
 // Real stacks over loopback: the same walks on streams between two libp2p nodes configured with one
 // transport x security x muxer combination each (L1 ledger only; the operating system carries the bytes).
+// The walks read one direction of one stream at a time, so data of the other direction and of the other
+// streams on the connection waits unread meanwhile.  Transports with CONNECTION-level flow control stop
+// every stream once the unread total exceeds their window (QUIC: connection window, some 768 kB at the
+// start; WebRTC: one SCTP receive buffer of 10 x 16 kB for the whole connection, a documented limit of that
+// transport for "dependent streams").  That is not a loss of bytes and not what the property is about, so
+// the harness keeps the unread total below the window: par streams at a time, units of at most maxUnit
+// bytes (a direction carries at most 3 units).
 var vfC02Stacks = map[string]struct {
-	addr string
-	opts func() []libp2p.Option
+	addr    string
+	par     int
+	maxUnit int
+	opts    func() []libp2p.Option
 }{
-	"tcp-noise-yamux": {"/ip4/127.0.0.1/tcp/0", func() []libp2p.Option {
+	"tcp-noise-yamux": {"/ip4/127.0.0.1/tcp/0", 4, 65536, func() []libp2p.Option {
 		return []libp2p.Option{libp2p.Transport(tcp.NewTCPTransport), libp2p.Security(noise.ID, noise.New), libp2p.Muxer(yamux.ID, yamux.DefaultTransport)}
 	}},
-	"tcp-tls-yamux": {"/ip4/127.0.0.1/tcp/0", func() []libp2p.Option {
+	"tcp-tls-yamux": {"/ip4/127.0.0.1/tcp/0", 4, 65536, func() []libp2p.Option {
 		return []libp2p.Option{libp2p.Transport(tcp.NewTCPTransport), libp2p.Security(libp2ptls.ID, libp2ptls.New), libp2p.Muxer(yamux.ID, yamux.DefaultTransport)}
 	}},
-	"tcp-psk-noise-yamux": {"/ip4/127.0.0.1/tcp/0", func() []libp2p.Option {
+	"tcp-psk-noise-yamux": {"/ip4/127.0.0.1/tcp/0", 4, 65536, func() []libp2p.Option {
 		psk := make([]byte, 32)
 		for i := range psk {
 			psk[i] = byte(i * 3)
 		}
 		return []libp2p.Option{libp2p.Transport(tcp.NewTCPTransport), libp2p.Security(noise.ID, noise.New), libp2p.Muxer(yamux.ID, yamux.DefaultTransport), libp2p.PrivateNetwork(psk)}
 	}},
-	"ws-noise-yamux": {"/ip4/127.0.0.1/tcp/0/ws", func() []libp2p.Option {
+	"ws-noise-yamux": {"/ip4/127.0.0.1/tcp/0/ws", 4, 65536, func() []libp2p.Option {
 		return []libp2p.Option{libp2p.Transport(websocket.New), libp2p.Security(noise.ID, noise.New), libp2p.Muxer(yamux.ID, yamux.DefaultTransport)}
 	}},
-	"quic": {"/ip4/127.0.0.1/udp/0/quic-v1", func() []libp2p.Option {
+	"quic": {"/ip4/127.0.0.1/udp/0/quic-v1", 2, 32768, func() []libp2p.Option {
 		return []libp2p.Option{libp2p.Transport(libp2pquic.NewTransport)}
 	}},
-	"webtransport": {"/ip4/127.0.0.1/udp/0/quic-v1/webtransport", func() []libp2p.Option {
+	"webtransport": {"/ip4/127.0.0.1/udp/0/quic-v1/webtransport", 2, 32768, func() []libp2p.Option {
 		return []libp2p.Option{libp2p.Transport(webtransport.New)}
 	}},
-	"webrtc-direct": {"/ip4/127.0.0.1/udp/0/webrtc-direct", func() []libp2p.Option {
+	"webrtc-direct": {"/ip4/127.0.0.1/udp/0/webrtc-direct", 1, 16384, func() []libp2p.Option {
 		return []libp2p.Option{libp2p.Transport(libp2pwebrtc.New)}
 	}},
 }
@@ -633,7 +658,7 @@ func TestVerifC02Stack(t *testing.T) {
 				<-ids.IDService().IdentifyWait(c)
 			}
 		}
-		if err := vfC02LazyReplay(res, files, h1, h2, name, share); err != nil {
+		if err := vfC02LazyReplay(res, files, h1, h2, name, share, st.par, st.maxUnit); err != nil {
 			t.Fatal(err)
 		}
 		h1.Close()
